@@ -266,7 +266,7 @@ def run(ctx):
     _, all_deep = generate(ctx, "Gen_Coerce_%s.cfg" % deep, "mc-laws+gen-D" + deep)
     extra_ids = sorted(set(all_deep) - set(all_base))
     rng.shuffle(extra_ids)
-    nextra = 2500 if quick else 20000
+    nextra = 2500 if quick else 10000
     chosen = sorted(all_base.values(), key=lambda c: c["id"]) + [all_deep[i] for i in sorted(extra_ids[:nextra])]
     ctx.log("cases: %d exhaustive at menu depth %s + %d of %d further cases of depth %s (seed %d)" % (
         len(all_base), base, min(nextra, len(extra_ids)), len(extra_ids), deep, ctx.seed))
